@@ -248,12 +248,18 @@ def parseOpnd (s : String) : Option Opnd :=
   else if s.startsWith "@s" then (.slot ·) <$> (s.drop 2).toString.toNat?
   else none
 
+/-- a map literal is a map: keys sorted, the last binding of a key wins (what `collect::<BTreeMap>` does) -/
+def canonPairs (l : List (Int × Int)) : List (Int × Int) :=
+  let ins (acc : List (Int × Int)) (kv : Int × Int) : List (Int × Int) :=
+    (acc.filter fun x => x.1 < kv.1) ++ [kv] ++ (acc.filter fun x => kv.1 < x.1)
+  l.foldl ins []
+
 /-- values: integers, `()`, `(a,b)` of integers, `{k:v,…}` -/
 def parseVal (s : String) : Option Val :=
   let s := trim s
   if s == "()" then some .unit
   else if s.startsWith "{" && s.endsWith "}" then
-    (.map ·) <$> parsePairs ((s.drop 1).dropEnd 1).toString
+    (fun l => .map (canonPairs l)) <$> parsePairs ((s.drop 1).dropEnd 1).toString
   else if s.startsWith "(" && s.endsWith ")" then
     match (((s.drop 1).dropEnd 1).toString).splitOn "," with
     | [a, b] => do pure (.pair (.int (← parseInt? a)) (.int (← parseInt? b)))
